@@ -62,9 +62,11 @@ func (v *VM) btErr(r any) error {
 	if n >= len(v.frame.Codes) { // the frame ran off its end: report its last instruction
 		n = len(v.frame.Codes) - 1
 	}
-	if n >= 0 {
+	if n >= 0 && !v.frame.Codes[n].Pos.IsZero() {
 		i := v.frame.Codes[n]
 		lines = append(lines, fmt.Sprintf("%v: %v: %v", i.Pos.String(v.globals), i.Code, r))
+	} else if n >= 0 { // a call made by the host (VM.Func) has no source position
+		lines = append(lines, fmt.Sprintf("%v: %v", v.frame.Codes[n].Code, r))
 	} else {
 		lines = append(lines, fmt.Sprint(r))
 	}
@@ -254,13 +256,13 @@ func mkFunc(args, rets, slots int, tokens []instruction) func(v *VM) {
 		v.stack = append(v.stack[:v.frame.BaseN], v.stack[topN:]...)
 		base := v.frame.BaseN
 		v.frame = prev // errors from here on belong to the call site
+		v.backtrace = v.backtrace[:len(v.backtrace)-1]
 		if len(v.stack)-base < rets {
 			panic("missing return")
 		}
 		for i := 0; i < rets; i++ {
 			v.stack[len(v.stack)-rets+i] = v.stack[len(v.stack)-rets+i].assign(Type(tokens[args+i].A))
 		}
-		v.backtrace = v.backtrace[:len(v.backtrace)-1]
 	}
 }
 
